@@ -30,17 +30,17 @@ theorem sk_rebase {fl : Bool} {s0 s : IState} {α} {Q : α → IState → Prop} 
     (hk : SKeep fl s Q e) : SKeep fl s0 Q e := by
   cases hk with
   | ok h' hq => exact .ok (KeptB.rebase h h') hq
-  | halt h' => exact .halt (KeptB.rebase h h')
+  | halt h' hr => exact .halt (KeptB.rebase h h') hr
   | fault => exact .fault
 
 /-- `extcall_gas_calc`: the access cost (at least 1) has been paid, and a granted gas limit too -/
-theorem sk_extcallGasCalc (h : KeptB fl s0 s) (r : HostResp) (tv : Bool) :
+theorem sk_extcallGasCalc (h : KeptB fl s0 s) (r : HostResp) (hrok : r.ok = true) (tv : Bool) :
     SKeep true s0 (fun g s' => s'.gas.remaining + 1 ≤ s.gas.remaining ∧
       ∀ gl, g = some gl → s'.gas.remaining + gl + 1 ≤ s.gas.remaining) (extcallGasCalc r tv s) := by
   refine sk_rebase h.toKept ?_
   have h := KeptB.refl s
   unfold extcallGasCalc
-  refine sk_bind (sk_requireSome h r) (fun _ s1 h1 _ => ?_)
+  refine sk_bind (sk_requireSome h r hrok) (fun _ s1 h1 _ => ?_)
   refine sk_bind (sk_gasCharge1 h1 _ (callCost_pos _ _ _ _ _)) (fun _ s2 h2 hq2 => ?_)
   refine sk_bind (sk_getS h2) (fun x s3 h3 hx => ?_)
   obtain ⟨rfl, rfl⟩ := hx
@@ -56,7 +56,7 @@ theorem sk_extcallGasCalc (h : KeptB fl s0 s) (r : HostResp) (tv : Bool) :
     cases hg
     omega
 
-theorem s_ext_post (h : KeptB fl s0 s) (r : HostResp) (tv : Bool) (mk : Nat → IState → CallInputs)
+theorem s_ext_post (h : KeptB fl s0 s) (r : HostResp) (hrok : r.ok = true) (tv : Bool) (mk : Nat → IState → CallInputs)
     (hmk : ∀ g x, (mk g x).gasLimit = g) :
     SKeep true s0 (SPaidOpt s0) ((do
       let g ← extcallGasCalc r tv
@@ -65,7 +65,7 @@ theorem s_ext_post (h : KeptB fl s0 s) (r : HostResp) (tv : Bool) (mk : Nat → 
       | some gasLimit => do
         let s ← getS
         pure (some (Action.call (mk gasLimit s))) : M (Option Action)) s) := by
-  refine sk_bind (sk_extcallGasCalc h r tv) (fun g s1 h1 hq => ?_)
+  refine sk_bind (sk_extcallGasCalc h r hrok tv) (fun g s1 h1 hq => ?_)
   cases g with
   | none => exact sk_pure h1 (fun x hx => nomatch hx)
   | some gl =>
@@ -83,10 +83,10 @@ theorem s_ext_post (h : KeptB fl s0 s) (r : HostResp) (tv : Bool) (mk : Nat → 
 theorem extcallI_strict (s : IState) : SOutcome s (extcallI s) := by
   unfold extcallI
   have h := KeptB.refl s
-  refine hostCallOptAction_strict (fl := false) ?_ (fun b r s' h => ?_)
+  refine hostCallOptAction_strict (fl := false) ?_ (fun b r s' hrok h => ?_)
   · sk_auto
   · obtain ⟨target, input, value⟩ := b
-    exact s_ext_post h r _ (fun gl x =>
+    exact s_ext_post h r hrok _ (fun gl x =>
       { input := input, retStart := 0, retEnd := 0, gasLimit := gl, bytecodeAddress := target,
         targetAddress := target, caller := x.target, valueTransfer := true, value := value,
         scheme := .extCall, isStatic := x.isStatic, isEof := true }) (fun _ _ => rfl)
@@ -94,10 +94,10 @@ theorem extcallI_strict (s : IState) : SOutcome s (extcallI s) := by
 theorem extdelegatecallI_strict (s : IState) : SOutcome s (extdelegatecallI s) := by
   unfold extdelegatecallI
   have h := KeptB.refl s
-  refine hostCallOptAction_strict (fl := false) ?_ (fun b r s' h => ?_)
+  refine hostCallOptAction_strict (fl := false) ?_ (fun b r s' hrok h => ?_)
   · sk_auto
   · obtain ⟨target, input⟩ := b
-    exact s_ext_post h r _ (fun gl x =>
+    exact s_ext_post h r hrok _ (fun gl x =>
       { input := input, retStart := 0, retEnd := 0, gasLimit := gl, bytecodeAddress := target,
         targetAddress := x.target, caller := x.caller, valueTransfer := false, value := x.callValue,
         scheme := .extDelegateCall, isStatic := x.isStatic, isEof := true }) (fun _ _ => rfl)
@@ -105,10 +105,10 @@ theorem extdelegatecallI_strict (s : IState) : SOutcome s (extdelegatecallI s) :
 theorem extstaticcallI_strict (s : IState) : SOutcome s (extstaticcallI s) := by
   unfold extstaticcallI
   have h := KeptB.refl s
-  refine hostCallOptAction_strict (fl := false) ?_ (fun b r s' h => ?_)
+  refine hostCallOptAction_strict (fl := false) ?_ (fun b r s' hrok h => ?_)
   · sk_auto
   · obtain ⟨target, input⟩ := b
-    exact s_ext_post h r _ (fun gl x =>
+    exact s_ext_post h r hrok _ (fun gl x =>
       { input := input, retStart := 0, retEnd := 0, gasLimit := gl, bytecodeAddress := target,
         targetAddress := target, caller := x.target, valueTransfer := true, value := 0,
         scheme := .extStaticCall, isStatic := true, isEof := true }) (fun _ _ => rfl)
@@ -118,7 +118,7 @@ theorem SDone.rebase {s0 s1 : IState} (h : Kept s0 s1) (hg : s1.gas.remaining = 
     (hd : SDone s1 d) : SDone s0 d := by
   cases hd with
   | next h' hg' => exact .next (h.trans h') (by omega)
-  | halt h' => exact .halt (h.trans h')
+  | halt h' hr => exact .halt (h.trans h') hr
   | fault => exact .fault
   | action h' hg' => exact .action (h.trans h') (by omega)
 
@@ -151,7 +151,7 @@ theorem step_strict (s : IState) : SOutcome s (step s) := by
     generalize execInstr (decode op) { s with pc := s.pc + 1 } = o at this
     cases this with
     | pure hd => exact .pure (hd.rebase hk rfl)
-    | host hk' => exact .host (fun r => (hk' r).rebase hk rfl)
+    | host hk' => exact .host (fun r hr => (hk' r hr).rebase hk rfl)
 
 end
 end Revm.Proofs.EvmLink
